@@ -304,6 +304,7 @@ func cmdCheck(argv []string) int {
 		return broken("cannot load the code under verification: %v", err)
 	}
 	e.seed = seed
+	e.crossCheck = tier == "thorough" || os.Getenv("VERIF_CROSSCHECK") != ""
 	var replayBin string
 	if spec.CLI {
 		replayBin, err = buildCLIReplay(repoDir, cliOverlayPath, cliSrc, buildDir)
@@ -588,6 +589,8 @@ func cmdCheck(argv []string) int {
 		"aborted_paths_owned_elsewhere": limitStrings(aborted, 10),
 		"validation_failures":           validateMsgs,
 		"not_reproduced":                limitStrings(notReproduced, 10),
+		"cross_check":                   map[string]any{"enabled": e.crossCheck, "assertion_queries_repeated_with_z3_5": e.crossQueries, "of_which_also_cvc5": e.crossCVC5, "disagreements": e.disagreements},
+		"branch_feasibility_presolvers": map[string]any{"decided_by_single_byte_truth_tables": e.fastDecided, "note": "branch feasibility only; every assertion that does not fold to a constant is decided by z3"},
 		"encoding":                      "regenerated from the repository's current source on this run (go/packages + go/ssa, x/tools v0.29.0)",
 	}
 	ev := evidence{PropertyID: id, Tier: tier, Seed: seed, Level: "model_checking", Coverage: cov,
@@ -602,6 +605,10 @@ func cmdCheck(argv []string) int {
 	}
 	for _, a := range limitStrings(aborted, 5) {
 		fmt.Printf("  aborted: %s\n", a)
+	}
+	if len(e.disagreements) > 0 {
+		fmt.Printf("BROKEN: property=%s solvers disagree on %d assertion queries: %v\n", id, len(e.disagreements), limitStrings(e.disagreements, 3))
+		return 2
 	}
 	if validateFail > 0 {
 		fmt.Printf("BROKEN: property=%s engine and native run disagree on %d sampled paths: %v\n", id, validateFail, validateMsgs)
